@@ -1,39 +1,40 @@
-(* Pinned statements of the C08 theorems. *)
+(* Pinned statements of the C08 theorems (generated from Props/C08.v when a statement is added;
+   a later change of a statement there makes this file fail). *)
 From Coq Require Import List ZArith String Bool Arith.
 Import ListNotations.
 From NV Require Import Delayed.Model Delayed.Spec Delayed.Tracked Props.C08.
 
 Check (C08_pending_tracked_at : forall es p i,
   prim_array_at es p i =
-  match nth_error (view_arr (VArr es p)) i with Some t => Ok t | None => Err EOther end.).
+  match nth_error (view_arr (VArr es p)) i with Some t => Ok t | None => Err EOther end).
 Check (C08_pending_tracked_map : forall f es p,
-  view_arr (prim_array_map f es p) = map (TObs f) (view_arr (VArr es p)).).
+  view_arr (prim_array_map f es p) = map (TObs f) (view_arr (VArr es p))).
 Check (C08_pending_tracked_concat : forall es1 p1 es2 p2,
   exists p2', map snd p2' = map snd p2 /\
-    view_arr (prim_array_concat es1 p1 es2 p2) = view_arr (VArr es1 p1) ++ view_arr (VArr es2 p2').).
+    view_arr (prim_array_concat es1 p1 es2 p2) = view_arr (VArr es1 p1) ++ view_arr (VArr es2 p2')).
 Check (C08_pending_tracked_slice : forall s e es p v,
   prim_array_slice s e es p = Ok v ->
-  view_arr v = firstn (e - s) (skipn s (view_arr (VArr es p))).).
+  view_arr v = firstn (e - s) (skipn s (view_arr (VArr es p)))).
 Check (C08_pending_tracked_lazy_app : forall c es p,
-  view_arr (prim_array_lazy_app c es p) = map (TCtr c) (view_arr (VArr es p)).).
+  view_arr (prim_array_lazy_app c es p) = map (TCtr c) (view_arr (VArr es p))).
 Check (C08_length_observes_nothing : forall es es' p p',
-  List.length es = List.length es' -> prim_array_length es p = prim_array_length es' p'.).
+  List.length es = List.length es' -> prim_array_length es p = prim_array_length es' p').
 Check (C08_pending_tracked_access : forall k fs,
   prim_record_access k fs =
-  match lookup k (view_rec (VRec fs)) with Some t => Ok t | None => Err EFieldMissing end.).
+  match lookup k (view_rec (VRec fs)) with Some t => Ok t | None => Err EFieldMissing end).
 Check (C08_pending_tracked_values : forall fs,
-  view_arr (prim_record_values fs) = map snd (sort_fields (view_rec (VRec fs))).).
+  view_arr (prim_record_values fs) = map snd (sort_fields (view_rec (VRec fs)))).
 Check (C08_fields_names_only : forall fs fs',
-  map fst fs = map fst fs' -> prim_record_fields fs = prim_record_fields fs'.).
+  map fst fs = map fst fs' -> prim_record_fields fs = prim_record_fields fs').
 Check (C08_pending_tracked_record_map : forall f fs,
-  view_rec (prim_record_map f fs) = map (fun kt => (fst kt, f (fst kt) (snd kt))) (view_rec (VRec fs)).).
+  view_rec (prim_record_map f fs) = map (fun kt => (fst kt, f (fst kt) (snd kt))) (view_rec (VRec fs))).
 Check (C08_pending_tracked_freeze : forall fs,
   view_rec (VRec (prim_record_freeze fs)) = view_rec (VRec fs)
-  /\ Forall (fun fl => snd (snd fl) = []) (prim_record_freeze fs).).
+  /\ Forall (fun fl => snd (snd fl) = []) (prim_record_freeze fs)).
 Check (C08_pending_tracked_record_lazy_app : forall c fs,
-  view_rec (prim_record_lazy_app c fs) = map (fun kt => (fst kt, TCtr c (snd kt))) (view_rec (VRec fs)).).
+  view_rec (prim_record_lazy_app c fs) = map (fun kt => (fst kt, TCtr c (snd kt))) (view_rec (VRec fs))).
 Check (C08_pending_tracked_insert : forall k x fs v,
-  prim_record_insert k x fs = Ok v -> view_rec v = view_rec (VRec fs) ++ [(k, x)].).
+  prim_record_insert k x fs = Ok v -> view_rec v = view_rec (VRec fs) ++ [(k, x)]).
 Check (C08_pending_tracked_pipeline : forall ts es p v,
   run_pipeline ts (VArr es p) = Ok v ->
-  exists es' p', v = VArr es' p' /\ view_arr v = spec_pipeline ts (view_arr (VArr es p)).).
+  exists es' p', v = VArr es' p' /\ view_arr v = spec_pipeline ts (view_arr (VArr es p))).
